@@ -97,6 +97,15 @@ def run(chk, tier, seed):
         cmds.append(("basic", [bas, prog, empty]))
         cmds.append(("basic", [bas, empty, prog, empty, empty]))
         cmds.append(("basic", [bas, prog, prog]))
+        # the paths that print a warning and carry on (anything done to stdout there must not lose a failure): bytes after the
+        # little-endian end marker, a big-endian line number with 0xFF as its high byte
+        progle = os.path.join(scratch, "trail.bbc")
+        open(progle, "wb").write(bc.prog("Z80", [(10 * i, [0xF1, 34] + [65 + (i % 26)] * 30 + [34]) for i in range(1, 60)]) + b"\x0d\x0d\x1a")
+        progff = os.path.join(scratch, "ffline.bbc")
+        open(progff, "wb").write(bc.prog("6502", [(10, [0xF1, 34, 65, 34]), (0xFF10, [0xF1, 34, 66, 34]), (0xFF20, [0xF1, 34, 67, 34])]))
+        cmds.append(("basic", [bas, "--dialect", "Z80", progle]))
+        cmds.append(("basic", [bas, "--dialect", "Z80", progle, progle]))
+        cmds.append(("basic", [bas, progff]))
         cmds.append(("basic", [bas, "--help"]))
         cmds.append(("basic", [bas, "--dialect", "help", prog]))
         # OutStream_cold.cfg's counterexample: an untested write is the one that overflows the buffer and nothing is buffered after it.
